@@ -275,5 +275,39 @@ def rule_x6(repo):
     return res
 
 
+def rule_x7(repo):
+    """Conflict analysis returns the conflict clause itself when no literal of it was propagated, and
+    backtracking decides by `len(clause)`.  A clause is a set of literals: if a repeated literal counts twice,
+    the learned clause [~a, ~a] is not recognised as a unit clause, nothing is undone, and the solver runs for
+    ever on [[~a, ~a]] (Tseitin produces such clauses).  Every clause whose length is examined must come out of
+    a step that removes repeated literals: resolution(), or a normalisation of the input at entry."""
+    res = RuleResult('C15.X7', 'the clauses whose length decides backtracking are free of repeated literals', floor=1)
+    f = repo.func(SAT, 'solve_cnf')
+
+    def dedups(e):
+        """expression builds a duplicate-free list: list(set(..)), list(dict.fromkeys(..)), sorted(set(..))"""
+        for c in ast.walk(e):
+            if isinstance(c, ast.Call) and (call_name(c) in ('set', 'dict.fromkeys', 'frozenset') or call_attr(c) == 'fromkeys'):
+                return True
+        return False
+    # resolution() itself
+    rs = repo.func(SAT, 'resolution')
+    rets = [r for r in ast.walk(rs.node) if isinstance(r, ast.Return)]
+    res_ok = bool(rets) and all(dedups(r.value) for r in rets)
+    # normalisation of the input: `cnf = [<dedup>(clause) for clause in cnf]` before the nested functions are used
+    entry = [n for n in walk_no_nested(f.node, include_root=False) if isinstance(n, ast.Assign) and is_name(n.targets[0], 'cnf') and
+             isinstance(n.value, (ast.ListComp, ast.GeneratorExp)) and dedups(n.value.elt)]
+    ac = _nested(repo, 'analyze_conflict')
+    raw = [n for n in ast.walk(ac.node) if isinstance(n, ast.Assign) and isinstance(n.value, ast.Subscript) and is_name(n.value.value, 'cnf')]
+    local = [n for n in ast.walk(ac.node) if isinstance(n, ast.Assign) and dedups(n.value) and raw and is_name(n.targets[0], raw[0].targets[0].id)]
+    ok = res_ok and (bool(entry) or bool(local) or not raw)
+    res.add('%s :: solve_cnf :: learned-clause-has-distinct-literals' % SAT, ok,
+            'resolution() removes repeated literals and the input clauses are normalised at entry' if ok else
+            ('resolution() does not remove repeated literals' if not res_ok else
+             'analyze_conflict can return an input clause as it was given (`%s`) and the input is not normalised: with a repeated literal the '
+             'length test of backtrack misjudges the learned clause and the solver does not terminate on [[~a, ~a]]' % src(raw[0], 40)), f.loc)
+    return res
+
+
 def rules(repo):
-    return [rule_x1(repo), rule_x2(repo), rule_x3(repo), rule_x4(repo), rule_x5(repo), rule_x6(repo)]
+    return [rule_x1(repo), rule_x2(repo), rule_x3(repo), rule_x4(repo), rule_x5(repo), rule_x6(repo), rule_x7(repo)]
